@@ -125,7 +125,7 @@ impl LoopCampaign {
     let span = t.max(1);
     let kbd_end_at = if rng.chance(1, 8) { Some(rng.below(span as usize + 1) as u64) } else { None };
     let tab_end_at = if has_tablet && rng.chance(1, 16) { Some(rng.below(span as usize + 1) as u64) } else { None };
-    CaseB { layout, layout_name: name, kbd, tab, has_tablet, cfg, tape: vec![], fail_at: None, extra_ticks: rng.below(6) as u32, kbd_end_at, tab_end_at, hybrid: self.hybrid, write_fault: None, read_fault: None, poll_fault: None, syspoll: self.hybrid && (self.force_syspoll || rng.chance(1, 2)) }
+    CaseB { layout, layout_name: name, kbd, tab, has_tablet, cfg, tape: vec![], fail_at: None, extra_ticks: rng.below(6) as u32, kbd_end_at, tab_end_at, hybrid: self.hybrid, write_fault: None, read_fault: None, sysread_fault: None, poll_fault: None, syspoll: self.hybrid && (self.force_syspoll || rng.chance(1, 2)) }
   }
 }
 
@@ -266,7 +266,7 @@ impl Campaign for LoopCampaign {
     if self.sweep { acc.declare_fault("io_error_in_driver_call"); }
     if self.write_faults { for f in ["os_write_eagain_under_real_writer", "os_write_epipe_under_real_writer", "os_write_ebadf_under_real_writer", "os_read_ebadf_under_real_driver"] { acc.declare_fault(f); } }
     if self.hybrid { if !self.force_syspoll { acc.declare_probe("real_driver_polls_cross_checked"); } acc.declare_probe("polls_through_the_shipped_real_driver_poll"); acc.declare_probe("wait_syscall_timed_out_in_simulated_kernel"); acc.declare_fault("wait_syscall_interrupted_eintr"); acc.declare_fault("wait_syscall_fabricated_readiness"); acc.declare_fault("wait_syscall_stale_edge_dropped"); }
-    if self.write_faults { for f in ["os_poll_ebadf_under_real_driver", "os_poll_einval_under_real_driver", "os_poll_efault_under_real_driver"] { acc.declare_fault(f); } }
+    if self.write_faults { acc.declare_fault("os_read_eio_from_nth_read_syscall_under_real_driver"); for f in ["os_poll_ebadf_under_real_driver", "os_poll_einval_under_real_driver", "os_poll_efault_under_real_driver"] { acc.declare_fault(f); } }
     acc.declare_probe("wakeup_with_two_or_more_events"); acc.declare_probe("both_devices_ready_in_one_wakeup");
     if self.property == "C11" || self.property == "C12" || self.property == "C10" { acc.declare_probe("repeat_chords_sent"); acc.declare_probe("timer_ticks"); }
     if self.property == "C11" || self.property == "C09" { for p in ["chord_while_keys_held", "chord_with_repeat_key_already_held", "timer_disarmed_by_key_event", "ignored_event_while_timer_armed", "poll_with_overdue_timer"] { acc.declare_probe(p); } }
@@ -298,6 +298,7 @@ impl Campaign for LoopCampaign {
       acc.fault("io_error_in_driver_call", s.io_error); acc.fault("os_write_eagain_under_real_writer", s.os_write_fault[0]); acc.fault("os_write_epipe_under_real_writer", s.os_write_fault[1]); acc.fault("os_write_ebadf_under_real_writer", s.os_write_fault[2]); acc.fault("os_read_ebadf_under_real_driver", s.os_read_fault); acc.fault("os_read_enodev_unplug_under_real_driver", s.os_enodev); acc.fault("hangup_on_unplug_cross_checked_against_real_poll", s.hangups_cross_checked);
       acc.probe_n("polls_through_the_shipped_real_driver_poll", s.sys_polls_through_real_driver); acc.probe_n("wait_syscall_timed_out_in_simulated_kernel", s.sys_wait_timeouts); acc.probe_n("wait_syscall_sub_millisecond_timeout_truncated_by_driver", s.sys_subms_truncated);
       acc.fault("wait_syscall_interrupted_eintr", s.sys_wait_eintr); acc.fault("wait_syscall_fabricated_readiness", s.sys_fabricated_ready); acc.fault("wait_syscall_stale_edge_dropped", s.sys_stale_dropped);
+      acc.fault("os_read_eio_from_nth_read_syscall_under_real_driver", s.os_sysread_fault);
       acc.fault("os_poll_ebadf_under_real_driver", s.os_poll_fault[0]); acc.fault("os_poll_einval_under_real_driver", s.os_poll_fault[1]); acc.fault("os_poll_efault_under_real_driver", s.os_poll_fault[2]);
       acc.probe_n("real_driver_polls_cross_checked", s.real_polls_compared); acc.fault("device_order_flipped", s.order_flipped); acc.fault("arrival_during_drain", s.arrival_during_drain); acc.fault("backoff_sleep", s.backoff_sleeps);
       acc.probe_n("wakeup_with_two_or_more_events", s.multi_event_wakeups); acc.probe_n("both_devices_ready_in_one_wakeup", s.both_devices_ready); acc.probe_n("wakeup_with_sixteen_or_more_events", s.max_events_one_wakeup);
@@ -376,6 +377,29 @@ impl Campaign for LoopCampaign {
                 if let Some(v) = v { verdict = Some(v); fail_case = ck; break 'outer2; }
               }
               Err(p) => { acc.count("sut_panics_in_sweep", 1); }
+            }
+          }
+        }
+      }
+      // from every read(2) call of this schedule on, the reads of that device fail (EIO): unlike the
+      // sweep above, which breaks the descriptor between two calls of the driver, this one lands in
+      // the middle of whatever the reader does inside one call (skipping records, resynchronising)
+      if verdict.is_none() {
+        'outer4: for (n, tablet) in [(out.stats.sys_reads_kbd as usize, false), (out.stats.sys_reads_tab as usize, true)] {
+          for k in 0..n {
+            let mut ck = case.clone(); ck.sysread_fault = Some((k, tablet));
+            match run_b(&ck, None) {
+              Ok(ok) => {
+                evaluations_extra += 1;
+                tally(&ok, acc);
+                let mut o2 = ObsB::default();
+                let v = match catch_unwind(AssertUnwindSafe(|| check_trace(&l, &ok.trace, &ok.result, &en, &mut o2))) { Ok(v) => v, Err(e) => { harness_error = Some(format!("reference loop panicked: {}", panic_msg(&e))); None } };
+                state_hashes.push(o2.shape);
+                digest = crate::rng::mix(digest, ok.digest);
+                if ok.stats.os_sysread_fault == 0 { acc.count("sysread_faults_not_reached_on_reexecution", 1); }
+                if let Some(v) = v { verdict = Some(v); fail_case = ck; break 'outer4; }
+              }
+              Err(_) => { acc.count("sut_panics_in_sweep", 1); }
             }
           }
         }
